@@ -1,5 +1,6 @@
 use crate::util::Tok;
 
+mod c01;
 mod c02;
 mod c03;
 mod c04;
@@ -27,6 +28,7 @@ pub fn run(engine: &str, toks: Vec<Tok>) -> Vec<Tok> {
         "c06_encode" => c06::encode(toks),
         "c07_run" => c07::run(toks),
         "c08_run" => c08::run(toks),
+        "c01_session" => c01::session(toks),
         "c17_run" => c17::run(toks),
         "c11_checksum" => c11::checksum(toks),
         "c11_serialize_echo" => c11::serialize_echo(toks),
